@@ -51,6 +51,9 @@ TRANSLATORS = [
     ('py2v_fitglue', [sys.executable, os.path.join(TOOLS, 'py2v_fitglue.py'), REPO_SRC, os.path.join(COQ, 'Gen')], ['Gen/FitGlueGen.v']),
     ('py2v_iastwrap', [sys.executable, os.path.join(TOOLS, 'py2v_iastwrap.py'), REPO_SRC, os.path.join(COQ, 'Gen')], ['Gen/IastWrapGen.v']),
     ('py2v_psdmeso', [sys.executable, os.path.join(TOOLS, 'py2v_psdmeso.py'), REPO_SRC, os.path.join(COQ, 'Gen')], ['Gen/PsdMesoGen.v']),
+    ('py2v_bspline', [sys.executable, os.path.join(TOOLS, 'py2v_bspline.py'), REPO_SRC, os.path.join(COQ, 'Gen')], ['Gen/BsplineGen.v']),
+    ('py2v_entryglue', [sys.executable, os.path.join(TOOLS, 'py2v_entryglue.py'), REPO_SRC, os.path.join(COQ, 'Gen')], ['Gen/EntryGlueGen.v']),
+    ('py2v_modelinit', [sys.executable, os.path.join(TOOLS, 'py2v_modelinit.py'), REPO_SRC, os.path.join(COQ, 'Gen')], ['Gen/ModelInitGen.v']),
 ]
 
 
